@@ -100,6 +100,7 @@ def lexicon_for(rules, stem, feats):
             ws.append((pos, infl, []))
         if 'infl-extra' in feats:
             ws.append((pos, 'irregular' + stem, [infl]))
+            ws.append((pos, 'second' + stem, [infl, 'zz' + infl]))    # several lemmas per irregular form
             ws.append((other, 'other' + stem, [infl]))
         if 'as-twin' in feats:
             ws.append(('s' if pos != 's' else 'a', cand, []))
